@@ -11,6 +11,7 @@ import (
 
 	gengo "google.golang.org/protobuf/cmd/protoc-gen-go/internal_gengo"
 	"google.golang.org/protobuf/compiler/protogen"
+	"google.golang.org/protobuf/encoding/protowire"
 	"google.golang.org/protobuf/proto"
 	"google.golang.org/protobuf/reflect/protodesc"
 	"google.golang.org/protobuf/reflect/protoreflect"
@@ -51,10 +52,101 @@ func c40Load() {
 		c40Protos[fd.Path()] = p
 		return true
 	})
+	for _, fp := range c40Synthetic() {
+		c40Protos[fp.GetName()] = fp
+		c40SynthFiles = append(c40SynthFiles, fp.GetName())
+	}
+	sort.Strings(c40SynthFiles)
 	for p := range c40Protos {
 		c40Files = append(c40Files, p)
 	}
 	sort.Strings(c40Files)
+}
+
+var c40SynthFiles []string
+
+// c40Synthetic builds request files nothing links in: custom options declared by the request's own
+// files, with the option values attached as unknown fields of the options messages — which is how
+// protoc hands them to a plugin that does not have the extensions compiled in.
+//   - pbsim/c40/<x>/<x>.proto (x = alpha, beta, gamma): declares a scalar field option and uses it in the
+//     same file on a field that also sets a standard option;
+//   - pbsim/c40/opts/opts.proto declares a message-typed message option (six scalar fields and a map), a
+//     scalar message option and a field option; pbsim/c40/use/use.proto and use2.proto use them.
+func c40Synthetic() []*descriptorpb.FileDescriptorProto {
+	opt := descriptorpb.FieldDescriptorProto_LABEL_OPTIONAL.Enum()
+	rep := descriptorpb.FieldDescriptorProto_LABEL_REPEATED.Enum()
+	i32 := descriptorpb.FieldDescriptorProto_TYPE_INT32.Enum()
+	str := descriptorpb.FieldDescriptorProto_TYPE_STRING.Enum()
+	msgT := descriptorpb.FieldDescriptorProto_TYPE_MESSAGE.Enum()
+	unknownVarint := func(num protowire.Number, v uint64) []byte {
+		return protowire.AppendVarint(protowire.AppendTag(nil, num, protowire.VarintType), v)
+	}
+	var out []*descriptorpb.FileDescriptorProto
+	for i, x := range []string{"alpha", "beta", "gamma"} {
+		num := int32(50101 + 100*i)
+		fo := &descriptorpb.FieldOptions{Deprecated: proto.Bool(true)}
+		fo.ProtoReflect().SetUnknown(unknownVarint(protowire.Number(num), 7))
+		mo := &descriptorpb.MessageOptions{Deprecated: proto.Bool(i == 1)}
+		out = append(out, &descriptorpb.FileDescriptorProto{
+			Name: proto.String("pbsim/c40/" + x + "/" + x + ".proto"), Package: proto.String("pbsim.c40." + x), Syntax: proto.String("proto2"),
+			Dependency: []string{"google/protobuf/descriptor.proto"},
+			Options:    &descriptorpb.FileOptions{GoPackage: proto.String("example.com/pbsim/c40/" + x)},
+			Extension:  []*descriptorpb.FieldDescriptorProto{{Name: proto.String(x + "_opt"), Number: proto.Int32(num), Label: opt, Type: i32, Extendee: proto.String(".google.protobuf.FieldOptions")}},
+			MessageType: []*descriptorpb.DescriptorProto{{Name: proto.String("Msg"), Options: mo, Field: []*descriptorpb.FieldDescriptorProto{
+				{Name: proto.String("f"), Number: proto.Int32(1), Label: opt, Type: i32, Options: fo},
+				{Name: proto.String("g"), Number: proto.Int32(2), Label: opt, Type: str}}}},
+		})
+	}
+	meta := &descriptorpb.DescriptorProto{Name: proto.String("Meta"), Field: []*descriptorpb.FieldDescriptorProto{
+		{Name: proto.String("owner"), Number: proto.Int32(1), Label: opt, Type: str}, {Name: proto.String("tier"), Number: proto.Int32(2), Label: opt, Type: i32},
+		{Name: proto.String("team"), Number: proto.Int32(3), Label: opt, Type: str}, {Name: proto.String("quota"), Number: proto.Int32(4), Label: opt, Type: i32},
+		{Name: proto.String("region"), Number: proto.Int32(5), Label: opt, Type: str}, {Name: proto.String("rank"), Number: proto.Int32(6), Label: opt, Type: i32},
+		{Name: proto.String("labels"), Number: proto.Int32(7), Label: rep, Type: msgT, TypeName: proto.String(".pbsim.c40.opts.Meta.LabelsEntry")}},
+		NestedType: []*descriptorpb.DescriptorProto{{Name: proto.String("LabelsEntry"), Options: &descriptorpb.MessageOptions{MapEntry: proto.Bool(true)}, Field: []*descriptorpb.FieldDescriptorProto{
+			{Name: proto.String("key"), Number: proto.Int32(1), Label: opt, Type: str}, {Name: proto.String("value"), Number: proto.Int32(2), Label: opt, Type: str}}}}}
+	out = append(out, &descriptorpb.FileDescriptorProto{
+		Name: proto.String("pbsim/c40/opts/opts.proto"), Package: proto.String("pbsim.c40.opts"), Syntax: proto.String("proto2"),
+		Dependency:  []string{"google/protobuf/descriptor.proto"},
+		Options:     &descriptorpb.FileOptions{GoPackage: proto.String("example.com/pbsim/c40/opts")},
+		MessageType: []*descriptorpb.DescriptorProto{meta},
+		Extension: []*descriptorpb.FieldDescriptorProto{
+			{Name: proto.String("meta"), Number: proto.Int32(50001), Label: opt, Type: msgT, TypeName: proto.String(".pbsim.c40.opts.Meta"), Extendee: proto.String(".google.protobuf.MessageOptions")},
+			{Name: proto.String("level"), Number: proto.Int32(50002), Label: opt, Type: i32, Extendee: proto.String(".google.protobuf.MessageOptions")},
+			{Name: proto.String("tag"), Number: proto.Int32(50003), Label: opt, Type: i32, Extendee: proto.String(".google.protobuf.FieldOptions")}},
+	})
+	metaValue := func() []byte {
+		var m []byte
+		m = protowire.AppendString(protowire.AppendTag(m, 1, protowire.BytesType), "billing")
+		m = protowire.AppendVarint(protowire.AppendTag(m, 2, protowire.VarintType), 3)
+		m = protowire.AppendString(protowire.AppendTag(m, 3, protowire.BytesType), "payments")
+		m = protowire.AppendVarint(protowire.AppendTag(m, 4, protowire.VarintType), 1000)
+		m = protowire.AppendString(protowire.AppendTag(m, 5, protowire.BytesType), "eu-west")
+		m = protowire.AppendVarint(protowire.AppendTag(m, 6, protowire.VarintType), 9)
+		for _, kv := range [][2]string{{"zeta", "1"}, {"alpha", "2"}, {"mid", "3"}, {"beta", "4"}} {
+			var e []byte
+			e = protowire.AppendString(protowire.AppendTag(e, 1, protowire.BytesType), kv[0])
+			e = protowire.AppendString(protowire.AppendTag(e, 2, protowire.BytesType), kv[1])
+			m = protowire.AppendBytes(protowire.AppendTag(m, 7, protowire.BytesType), e)
+		}
+		return protowire.AppendBytes(protowire.AppendTag(nil, 50001, protowire.BytesType), m)
+	}
+	for i, x := range []string{"use", "use2"} {
+		mo := &descriptorpb.MessageOptions{}
+		mo.ProtoReflect().SetUnknown(metaValue())
+		mo2 := &descriptorpb.MessageOptions{Deprecated: proto.Bool(true)}
+		mo2.ProtoReflect().SetUnknown(unknownVarint(50002, uint64(4+i)))
+		fo := &descriptorpb.FieldOptions{Deprecated: proto.Bool(true)}
+		fo.ProtoReflect().SetUnknown(unknownVarint(50003, 11))
+		out = append(out, &descriptorpb.FileDescriptorProto{
+			Name: proto.String("pbsim/c40/" + x + "/" + x + ".proto"), Package: proto.String("pbsim.c40." + x), Syntax: proto.String("proto2"),
+			Dependency: []string{"pbsim/c40/opts/opts.proto"},
+			Options:    &descriptorpb.FileOptions{GoPackage: proto.String("example.com/pbsim/c40/" + x)},
+			MessageType: []*descriptorpb.DescriptorProto{
+				{Name: proto.String("Account"), Options: mo, Field: []*descriptorpb.FieldDescriptorProto{{Name: proto.String("id"), Number: proto.Int32(1), Label: opt, Type: str, Options: fo}}},
+				{Name: proto.String("Ledger"), Options: mo2, Field: []*descriptorpb.FieldDescriptorProto{{Name: proto.String("id"), Number: proto.Int32(1), Label: opt, Type: str}}}},
+		})
+	}
+	return out
 }
 
 // c40Related: files that root imports (transitively, one level of importers too).
@@ -113,6 +205,18 @@ func (c40) Gen(r *sim.Rng, tier string) *scn.Scn {
 		s.Objects = append(s.Objects, scn.Object{Type: "file", Note: root})
 		for i := 0; i < n && len(rel) > 0; i++ {
 			s.Objects = append(s.Objects, scn.Object{Type: "file", Note: rel[r.Intn(len(rel))]})
+		}
+	}
+	if r.Chance(1, 5) {
+		// files that declare custom options and files that use them (all outside the generator binary)
+		s.Objects = s.Objects[:0]
+		pick := append([]string(nil), c40SynthFiles...)
+		shuffle(r, pick)
+		for _, f := range pick[:r.Range(2, len(pick))] {
+			s.Objects = append(s.Objects, scn.Object{Type: "file", Note: f})
+		}
+		if r.Chance(1, 3) {
+			s.Objects = append(s.Objects, scn.Object{Type: "file", Note: c40Files[r.Intn(len(c40Files))]})
 		}
 	}
 	var params []string
